@@ -11,7 +11,7 @@ import (
 
 // C09 — offspring quotas follow shared fitness and total the population size.
 func C09(p *Prog, r *Run) {
-	r.Explanation = "Decided: the formulas the statement names, as origins of the stored values - an organism's expected offspring is its fitness divided by (sum of all fitness / number of organisms), computed after every species' adjustFitness, whose last write to the fitness is the division by the species size, whose parent count is int(floor(SurvivalThresh*n + 1)) and which marks exactly the organisms at positions >= that count of the list sorted best-first; countOffspring adds floor(e) per organism to the quota and mod(e,1) to the carried fraction, moves whole units of the fraction to the quota, and returns both; the fraction is threaded through the species in order starting from zero; zero-quota species are removed before reproduction and marked organisms are removed from both lists; plus the conservation, pipeline and one-baby-per-quota-unit obligations shared with C02. Not decided: the numeric claims (proportionality, 'differs by less than one', totals under floating-point rounding)."
+	r.Explanation = "Decided: the formulas the statement names, as origins of the stored values - an organism's expected offspring is its fitness divided by (sum of all fitness / number of organisms), computed after every species' adjustFitness, whose last write to the fitness is the division by the species size, whose parent count is int(floor(SurvivalThresh*n + 1)) and which marks exactly the organisms at positions >= that count of the list sorted best-first; countOffspring adds floor(e) per organism to the quota and mod(e,1) to the carried fraction, moves whole units of the fraction to the quota, and returns both; the fraction is threaded through the species in order starting from zero; zero-quota species are removed before reproduction and marked organisms are removed from both lists; plus the conservation, pipeline and one-baby-per-quota-unit obligations shared with C02; the rest of the age adjustment (youth boost exactly for Age <= 10, negative fitness replaced before sharing, the improvement record kept on original fitness values exactly when the best one exceeds the maximum ever); the parent pool (C09.4: from the marking until the last species has reproduced only the removal of the marked organisms writes a species' organism list - in both executors the babies are speciated after the last Species.reproduce / after the join); the choice between the two repairs of a short total (C09.5: make-up offspring iff sum of quotas < n, whole-population fallback iff sum + 1 < n, both to the species with the largest quota, which exists whenever a species exists). Not decided: the numeric claims (proportionality, 'differs by less than one', totals under floating-point rounding)."
 	r.Rule("C09.1", "pipeline order, one baby per quota unit, conservation of the total under stolen babies and delta coding (shared with C02)", func() {
 		r.epochPipeline(false)
 		r.babiesPerQuota()
@@ -44,6 +44,10 @@ func C09(p *Prog, r *Run) {
 		}
 		for _, st := range FieldStores(fn, p.Field(PkgG, "Population", "Organisms")) {
 			okStore = true
+			// the same list built by index into a preallocated slice and cut to the number kept
+			if c09KeptByIndex(fn, tm, st, "recv.Organisms[*]", "recv.Organisms[*].toEliminate") {
+				okKeep = true
+			}
 			for _, f := range phiWeb(st.Val).Feeders {
 				c, ok := f.(*ssa.Call)
 				if !ok {
@@ -62,6 +66,12 @@ func C09(p *Prog, r *Run) {
 		}
 		r.Check(okRem && okKeep && okStore && okLoop, "purgeOrganisms", p.Pos(fn.Pos()), "marked organisms leave their species; exactly the unmarked ones form the new master list",
 			fmt.Sprintf("purgeOrganisms: marked organisms removed from their species=%v, unmarked ones kept=%v, master list replaced=%v, all organisms visited=%v", okRem, okKeep, okStore, okLoop))
+	})
+	r.Rule("C09.4", "the parents of a species are the survivors of its cut-off: from the marking until the last species has reproduced, nothing but the removal of the marked organisms writes a species' organism list (babies are speciated only after every species has reproduced, in both executors)", func() {
+		r.c09ParentPool()
+	})
+	r.Rule("C09.5", "the quotas total the population size after the repair of a short total: the make-up offspring is given exactly when the sum of all quotas is below the number of organisms, the whole-population fallback exactly when the re-counted total (make-up offspring included) still is - not by a presumed cause -, and both go to the species with the largest quota, which the scan always finds", func() {
+		r.c09FallbackWhenShort()
 	})
 }
 
@@ -113,13 +123,31 @@ func (r *Run) c09ExpectedOffspring() {
 				continue
 			}
 			gt := tm.Of(g.Cond)
-			if gt.Op != "bin" || !strings.Contains(gt.String(), mean) {
+			if !strings.Contains(gt.String(), mean) {
 				continue
 			}
-			zero := gt.Args[1].String() == "0" && gt.Args[0].String() == mean
-			switch {
-			case zero && gt.Name == "!=" && g.True, zero && gt.Name == "==" && !g.True, zero && gt.Name == ">" && g.True, zero && gt.Name == "<=" && !g.True:
-			default:
+			// the test and its outcome, with negations removed and the constant on the right (`0 != mean`, `!(mean == 0)`)
+			cond, outcome := g.Cond, g.True
+			for {
+				if u, isU := cond.(*ssa.UnOp); isU && u.Op == token.NOT {
+					cond, outcome = u.X, !outcome
+					continue
+				}
+				break
+			}
+			okG := false
+			if b, isB := cond.(*ssa.BinOp); isB {
+				x, y, op := b.X, b.Y, b.Op
+				if IsConstIntValue(x, 0) && !IsConstIntValue(y, 0) {
+					x, y, op = y, x, mirrorCmp(op)
+				}
+				zero := IsConstIntValue(y, 0) && tm.Of(x).String() == mean
+				switch {
+				case zero && op == token.NEQ && outcome, zero && op == token.EQL && !outcome, zero && op == token.GTR && outcome, zero && op == token.LEQ && !outcome:
+					okG = true
+				}
+			}
+			if !okG {
 				okGuard, why = false, gt.String()
 			}
 		}
@@ -166,7 +194,7 @@ func (r *Run) c09AdjustFitness(boundOnly bool) {
 	okShare := false
 	if share != nil {
 		vt := tm.Of(share.Val)
-		okShare = vt.Op == "bin" && vt.Name == "/" && vt.Args[0].String() == "recv.Organisms[*].Fitness" && vt.Args[1].String() == "float64(len(recv.Organisms))" &&
+		okShare = vt.Op == "bin" && vt.Name == "/" && vt.Args[0].String() == "recv.Organisms[*].Fitness" && vt.Args[1].String() == "float64(len(recv.Organisms))" && tm.Of(share.Addr).String() == "recv.Organisms[*].Fitness" &&
 			loopRangesOver(tm, InnermostLoop(loops, share.Block()), "recv.Organisms")
 	}
 	if !boundOnly {
@@ -194,23 +222,22 @@ func (r *Run) c09AdjustFitness(boundOnly bool) {
 		if l != nil && at.Op == "field" && at.Args[0].Op == "elem" && at.Args[0].Args[0].String() == "recv.Organisms" {
 			if ph, ok := at.Args[0].Args[1].V.(*ssa.Phi); ok && ph.Block() == l.Header {
 				init, step := "", false
+				var initT *Term
 				for i, e := range ph.Edges {
 					if !l.Blocks[ph.Block().Preds[i]] {
-						init = tm.Of(e).String()
+						initT = tm.Of(e)
+						init = initT.String()
 					} else if b, ok := e.(*ssa.BinOp); ok && b.Op == token.ADD && b.X == ssa.Value(ph) && constTermOf(b.Y) != nil && constTermOf(b.Y).Name == "1" {
 						step = true
 					}
 				}
+				// the body runs exactly while c < len(Organisms), however the header test spells it
 				bound := false
-				if iff, ok := l.Header.Instrs[len(l.Header.Instrs)-1].(*ssa.If); ok {
-					if b, ok := iff.Cond.(*ssa.BinOp); ok && b.Op == token.LSS && b.X == ssa.Value(ph) && tm.Of(b.Y).String() == "len(recv.Organisms)" {
-						bound = true
-					}
+				if x, y, ok := c09HeaderLess(l); ok && x == ssa.Value(ph) && tm.Of(y).String() == "len(recv.Organisms)" {
+					bound = true
 				}
 				okMark = step && bound
-				norm := strings.ReplaceAll(init, " ", "")
-				okParents = norm == "int(math.Floor(((p1.SurvivalThresh*float64(len(recv.Organisms)))+1)))" || norm == "int(math.Floor((1+(p1.SurvivalThresh*float64(len(recv.Organisms))))))" ||
-					norm == "(int(math.Floor((p1.SurvivalThresh*float64(len(recv.Organisms)))))+1)"
+				okParents = initT != nil && c09IsParentCount(initT)
 				if !okParents {
 					r.Note("adjustFitness: parent count is %s", init)
 				}
@@ -228,11 +255,10 @@ func (r *Run) c09AdjustFitness(boundOnly bool) {
 		okB := false
 		if len(marks) == 1 {
 			if l := InnermostLoop(loops, marks[0].Block()); l != nil {
-				if iff, ok := l.Header.Instrs[len(l.Header.Instrs)-1].(*ssa.If); ok {
-					ct := tm.Of(iff.Cond)
+				if x, y, ok := c09HeaderLess(l); ok {
 					at := tm.Of(marks[0].Addr)
-					okB = ct.Op == "bin" && ct.Name == "<" && ct.Args[1].String() == "len(recv.Organisms)" && at.Args[0].Op == "elem" && at.Args[0].Args[0].String() == "recv.Organisms" &&
-						len(at.Args[0].Args) > 1 && at.Args[0].Args[1].V == iff.Cond.(*ssa.BinOp).X
+					okB = tm.Of(y).String() == "len(recv.Organisms)" && at.Op == "field" && at.Args[0].Op == "elem" && at.Args[0].Args[0].String() == "recv.Organisms" &&
+						len(at.Args[0].Args) > 1 && at.Args[0].Args[1].V == x
 				}
 			}
 		}
@@ -240,6 +266,9 @@ func (r *Run) c09AdjustFitness(boundOnly bool) {
 		return
 	}
 	r.c09Stagnation(fn, tm, loops)
+	r.c09YouthBoost(fn, tm, loops, share)
+	r.c09NonNegative(fn, tm, loops, share)
+	r.c09ImprovementRecord(fn, tm, loops, sortCall)
 	r.Check(okParents, "adjustFitness.parent-count", p.Pos(fn.Pos()), "parents = int(floor(SurvivalThresh * n + 1))", "the number of organisms that remain available as parents is not int(floor(SurvivalThresh*n + 1))")
 	r.Check(okMark, "adjustFitness.marking", p.Pos(fn.Pos()), "exactly the positions parents, parents+1, ..., n-1 are marked", "the organisms marked for elimination are not exactly those at positions >= the parent count")
 	r.Check(okOrder, "adjustFitness.sorted-first", p.Pos(fn.Pos()), "the list is sorted best-first after the fitness update and before the marking", "the organisms are not sorted best-first between the fitness update and the marking: the wrong organisms are eliminated")
@@ -323,7 +352,9 @@ func (r *Run) c09CountOffspring() {
 		nq, ns := ip.NextValue(quota), ip.NextValue(skim)
 		carried := false
 		for _, g := range ip.Conds {
-			if b, ok := g.Cond.(*ssa.BinOp); ok && b.Op == token.GEQ && g.True && sF(b.X) && constTermOf(b.Y) != nil && constTermOf(b.Y).Name == "1" {
+			// `fraction >= 1` holds on the path (CmpFact: operands in either order; the complement of a floating-point
+			// ordering is not taken)
+			if x, y, op, ok := CmpFact(g.Cond, g.True); ok && op == token.GEQ && sF(x) && constTermOf(y) != nil && constTermOf(y).Name == "1" {
 				carried = true
 			}
 		}
@@ -404,7 +435,10 @@ func (r *Run) c09Stagnation(fn *ssa.Function, tm *Termer, loops []*Loop) {
 	var pen *ssa.Store
 	for _, st := range FieldStores(fn, fit) {
 		vt := tm.Of(st.Val)
-		if vt.Op == "bin" && vt.Name == "*" && (vt.Args[1].String() == "0.01" || vt.Args[0].String() == "0.01") {
+		// the organism's own fitness times 0.01, stored back into that fitness (operands in either order)
+		const fT = "recv.Organisms[*].Fitness"
+		if vt.Op == "bin" && vt.Name == "*" && tm.Of(st.Addr).String() == fT &&
+			((vt.Args[1].String() == "0.01" && vt.Args[0].String() == fT) || (vt.Args[0].String() == "0.01" && vt.Args[1].String() == fT)) {
 			pen = st
 		}
 	}
@@ -424,14 +458,20 @@ func (r *Run) c09Stagnation(fn *ssa.Function, tm *Termer, loops []*Loop) {
 		return
 	}
 	g := conds[0]
-	cmp, ok := g.Cond.(*ssa.BinOp)
+	// the comparison that holds where the penalty is applied, the replaced value (if any) on the left
+	cx, cy, cop, ok := CmpFact(g.Cond, g.True)
 	if !ok {
 		r.Bad("adjustFitness.stagnation", p.Pos(pen.Pos()), "the condition of the stagnation penalty is not an integer comparison: "+tm.Of(g.Cond).String())
 		return
 	}
+	if _, isPhi := cx.(*ssa.Phi); !isPhi {
+		if _, yPhi := cy.(*ssa.Phi); yPhi {
+			cx, cy, cop = cy, cx, mirrorCmp(cop)
+		}
+	}
 	var got Lin
 	decided := false
-	if ph, isPhi := cmp.X.(*ssa.Phi); isPhi && len(ph.Edges) == 2 {
+	if ph, isPhi := cx.(*ssa.Phi); isPhi && len(ph.Edges) == 2 {
 		// debt = X, replaced by a constant c when X == 0
 		for i := 0; i < 2; i++ {
 			c, isC := ph.Edges[i].(*ssa.Const)
@@ -444,19 +484,17 @@ func (r *Run) c09Stagnation(fn *ssa.Function, tm *Termer, loops []*Loop) {
 				if pg.Cond == nil {
 					continue
 				}
-				if b, ok := pg.Cond.(*ssa.BinOp); ok && b.Op == token.EQL && pg.True && b.X == x {
-					if k, ok := b.Y.(*ssa.Const); ok && k.Value != nil && k.Int64() == 0 {
-						zeroGuard = true
-					}
+				if zx, zy, zop, ok := CmpFact(pg.Cond, pg.True); ok && zop == token.EQL && zx == x && IsConstIntValue(zy, 0) {
+					zeroGuard = true
 				}
 			}
 			if !zeroGuard {
 				continue
 			}
 			lx := linStatic(tm, x, inline, 0)
-			ly := linStatic(tm, cmp.Y, inline, 0)
-			onX, ok1 := ineqAsLin(cmp.Op, lx, ly, g.True)                  // cond(X) as L>=0
-			onC, ok2 := ineqAsLin(cmp.Op, linConst(c.Int64()), ly, g.True) // cond(c)
+			ly := linStatic(tm, cy, inline, 0)
+			onX, ok1 := ineqAsLin(cop, lx, ly, true)                  // cond(X) as L>=0
+			onC, ok2 := ineqAsLin(cop, linConst(c.Int64()), ly, true) // cond(c)
 			if !ok1 || !ok2 || len(onC.T) != 0 {
 				continue
 			}
@@ -475,9 +513,9 @@ func (r *Run) c09Stagnation(fn *ssa.Function, tm *Termer, loops []*Loop) {
 			}
 		}
 	} else {
-		lx := linStatic(tm, cmp.X, inline, 0)
-		ly := linStatic(tm, cmp.Y, inline, 0)
-		got, decided = ineqAsLin(cmp.Op, lx, ly, g.True)
+		lx := linStatic(tm, cx, inline, 0)
+		ly := linStatic(tm, cy, inline, 0)
+		got, decided = ineqAsLin(cop, lx, ly, true)
 	}
 	if !decided {
 		r.Bad("adjustFitness.stagnation", p.Pos(pen.Pos()), "the condition of the stagnation penalty could not be brought to the form L >= 0: "+tm.Of(g.Cond).String())
